@@ -827,6 +827,9 @@ func marshalProto(i interface{}) ([]byte, error) {
 		}
 		out.Link[i] = in.Link[i].(string)
 	}
+	if b, err, ok := verifMarshal(&out); ok {
+		return b, err
+	}
 	return proto.Marshal(&out)
 }
 
